@@ -93,7 +93,26 @@ pub fn parse_args() -> Args {
 
 /// Silences the default panic message (panics are caught per case and reported in the case output).
 pub fn quiet_panics() {
-    std::panic::set_hook(Box::new(|_| {}));
+    std::panic::set_hook(Box::new(|info| {
+        // keep the last panic (message and source location) so that a replay names what failed
+        let msg = info
+            .payload()
+            .downcast_ref::<String>()
+            .cloned()
+            .or_else(|| info.payload().downcast_ref::<&str>().map(|s| s.to_string()))
+            .unwrap_or_else(|| "non-string panic".to_string());
+        let loc = info.location().map(|l| format!("{}:{}", l.file(), l.line())).unwrap_or_default();
+        if let Ok(mut last) = LAST_PANIC.lock() {
+            *last = format!("{msg} at {loc}");
+        }
+    }));
+}
+
+static LAST_PANIC: std::sync::Mutex<String> = std::sync::Mutex::new(String::new());
+
+/// message and location of the most recent panic of the process (any thread)
+pub fn last_panic() -> String {
+    LAST_PANIC.lock().map(|s| s.clone()).unwrap_or_default()
 }
 
 /// Runs `exec` on one case input; a panic of the real code becomes `{"panic": "<message>"}`.
